@@ -15,6 +15,7 @@ from trimesh import primitives as tp
 
 from ..core import ASSUMPTIONS, REQUIRED_CLASSES, RULES, Violation, body, subcheck
 from ..gen import c16_points as G
+from ..gen import matrices as GMx
 from ..gen import meshes as GM
 from ..oracle.c16_welzl import miniball
 
@@ -131,12 +132,14 @@ class PS:
 def scale_classes(spec, ps):
     out = []
     s = float(spec.get("scale", 1.0))
-    out.append("scale:small" if s < 0.5 else "scale:large" if s > 50 else "scale:unit")
+    out.append("scale:tiny" if s < 5e-4 else "scale:small" if s < 0.5 else "scale:large" if s > 50 else "scale:unit")
     off = spec.get("offset")
     mag = max(abs(float(v)) for v in off) if off else 0.0
     out.append("offset:1e6" if mag >= 1e5 else "offset:mid" if mag > 0 else "offset:0")
     if spec.get("flat"):
         out.append("flat:rot" if spec.get("rot") is not None else "flat:axis")
+        if spec.get("needle"):
+            out.append("needle")
     return out
 
 
@@ -753,13 +756,13 @@ def _primitive_clauses(ps, a, sb, who, general_ok=False):
         chk(False, f"{sb}|{who}|type", str(type(a)))
 
 
-def seq_query(q, g, ps, case, P, F, src, general_ok):
+def seq_query(q, g, ps, case, P, F, src, general_ok, tag=""):
     """run one query on the shared object and apply exactly the predicates of the fresh-object bodies"""
-    sb = f"C16.sequence|{src}"
+    sb = f"C16.sequence{tag}|{src}"
     if q == "convex_hull":
-        hull_clauses(ps, g.convex_hull, src, sigbase="C16.sequence|convex_hull")
+        hull_clauses(ps, g.convex_hull, src, sigbase=f"C16.sequence{tag}|convex_hull")
     elif q == "convex.convex_hull(obj)":
-        hull_clauses(ps, tc.convex_hull(g), src, sigbase="C16.sequence|convex.convex_hull(obj)")
+        hull_clauses(ps, tc.convex_hull(g), src, sigbase=f"C16.sequence{tag}|convex.convex_hull(obj)")
     elif q == "bounds":
         b = np.asarray(g.bounds)
         chk(np.array_equal(b[0], ps.lo) and np.array_equal(b[1], ps.hi), f"{sb}|bounds|exact", lambda: f"{b.tolist()}")
@@ -811,24 +814,49 @@ def b_sequence(case, ctx):
     if not in_generated_domain(ps):
         ctx.note(cls="seq:skipped_not_spanning")
         return
-    general_ok = general_position_candidate(case, ps)
     g = make_geom(case, P, F)
-    vbytes = P.tobytes()
-    fbytes = None if F is None else np.asarray(g.faces).tobytes()
-    snaps = {}
-    order = [SEQ_QUERIES[i] for i in case["order"]]
-    for q in order:
-        seq_query(q, g, ps, case, P, F, src, general_ok)
-        # the input is untouched ...
-        same = np.asarray(g.vertices).tobytes() == vbytes and (fbytes is None or np.asarray(g.faces).tobytes() == fbytes)
-        chk(same, f"C16.sequence|input_changed|by={q}|{src}", "vertices / faces of the object differ bytewise from what it was built from")
-        # ... and so is every answer handed out earlier (the object returns its cached answers again)
-        for e, snap in snaps.items():
-            chk(_snapshot(e, g) == snap, f"C16.sequence|answer_changed|{e}|by={q}|{src}", lambda: f"{e} of the same object returns different data after {q}")
-        if q in SEQ_CACHED and q not in snaps:
-            snaps[q] = _snapshot(q, g)
-    first = order[0]
-    ctx.note(nontrivial=len(ps.U) >= 5, cls=["seq:src=" + src, "seq:first=" + first, "seq:" + label_of(case)])
+    # phases: the drawn order on the object as built, then (optionally) transform the SAME object in place and query it
+    # again: everything it returns now has to be right for the transformed input, whatever it had cached before
+    phases = [(None, case["order"])] + [(ph["T"], ph["order"]) for ph in case.get("then", [])]
+    classes = ["seq:src=" + src, "seq:first=" + SEQ_QUERIES[case["order"][0]], "seq:" + label_of(case)]
+    for T, order in phases:
+        tag = ""
+        if T is not None:
+            M = np.asarray(T["M"], dtype=np.float64)
+            tag = "|after_" + T["cls"]
+            g.apply_transform(M.copy())
+            L, t = M[:3, :3], M[:3, 3]
+            want = P @ L.T + t
+            P2 = np.ascontiguousarray(np.asarray(g.vertices, dtype=np.float64)).copy()
+            # float64 product of coordinates of size M with the rows of L, plus the documented identity shortcut
+            # (a matrix within 1e-8 of I is not applied)
+            tolv = 64 * EPS * (float(np.abs(L).sum(axis=1).max()) * ps.M + float(np.abs(t).max()))
+            if float(np.abs(M - np.eye(4)).max()) < 2e-8:
+                tolv += 3e-8 * ps.M + 1e-8
+            dev = float(np.abs(P2 - want).max()) if P2.shape == want.shape else float("inf")
+            chk(dev <= tolv, f"C16.sequence|apply_transform|vertices|{T['cls']}|{src}", lambda: f"vertices after apply_transform differ from matrix*vertices by {dev:.3e} (tol {tolv:.3e})")
+            P = P2
+            ps = PS(P)
+            if not in_generated_domain(ps):
+                classes.append("seq:transformed_out_of_domain")
+                break
+            classes.append("seq:transform=" + T["cls"])
+        general_ok = general_position_candidate(case, ps)
+        vbytes = P.tobytes()
+        fbytes = None if F is None else np.asarray(g.faces).tobytes()
+        snaps = {}
+        for qi in order:
+            q = SEQ_QUERIES[qi]
+            seq_query(q, g, ps, case, P, F, src, general_ok, tag)
+            # the input is untouched ...
+            same = np.asarray(g.vertices).tobytes() == vbytes and (fbytes is None or np.asarray(g.faces).tobytes() == fbytes)
+            chk(same, f"C16.sequence|input_changed|by={q}|{src}", "vertices / faces of the object differ bytewise from what they were before the query")
+            # ... and so is every answer handed out earlier (the object returns its cached answers again)
+            for e, snap in snaps.items():
+                chk(_snapshot(e, g) == snap, f"C16.sequence|answer_changed|{e}|by={q}|{src}", lambda: f"{e} of the same object returns different data after {q}")
+            if q in SEQ_CACHED and q not in snaps:
+                snaps[q] = _snapshot(q, g)
+    ctx.note(nontrivial=len(ps.U) >= 5, cls=classes)
 
 
 # ------------------------------------------------------------------------------------------------
@@ -1066,6 +1094,22 @@ def seq_case(draw):
         c["src"] = "cloud"
     # a permutation of all queries: every ordered pair (earlier, later) of queries is reached
     c["order"] = list(draw(st.permutations(list(range(len(SEQ_QUERIES))))))
+    # then transform the same object in place (rigid, similarity, mirror, negative uniform, anisotropic, signed
+    # per-axis scale, translation) and ask again: a drawn subset of the queries, the cached ones first in line
+    then = []
+    for _ in range(draw(st.integers(0, 2))):
+        if draw(st.integers(0, 4)) == 0:
+            d = [draw(st.sampled_from([1.0, -1.0])) * draw(st.sampled_from([1.0, 0.5, 2.0, 0.1, 7.0])) for _ in range(3)]
+            M = np.diag(d + [1.0])
+            M[:3, 3] = [draw(st.sampled_from([0.0, 1.0, -3.5])) for _ in range(3)]
+            T = {"cls": "axis_scale_neg" if d[0] * d[1] * d[2] < 0 else "axis_scale", "M": M.tolist()}
+        else:
+            T = draw(GMx.matrix(classes=["translation", "rigid", "similarity", "mirror", "neg_uniform", "anisotropic"]))
+            T = {"cls": T["cls"], "M": T["M"]}
+        k = draw(st.integers(3, 7))
+        then.append({"T": T, "order": list(draw(st.permutations(list(range(len(SEQ_QUERIES))))))[:k]})
+    if then:
+        c["then"] = then
     return c
 
 
@@ -1270,6 +1314,9 @@ REQUIRED_CLASSES["C16"] = [
     "dt:list",
     "dt:float64_readonly",
     "dt:mag=full",
+    "seq:transform=mirror",
+    "seq:transform=neg_uniform",
+    "seq:transform=similarity",
     "seq:src=mesh",
     "seq:src=cloud",
     "seq:first=bounding_sphere",
